@@ -504,6 +504,7 @@ impl<'a> Printer<'a> {
             }
             EKind::MaybeJust(px) => format!("Maybe.Just {}", self.operand(px)),
             EKind::MaybeNone => "Maybe.None".to_string(),
+            EKind::Raw(t) => t.clone(),
         }
     }
 
@@ -720,6 +721,11 @@ impl<'a> Printer<'a> {
                 let tr = self.begin();
                 self.unreachable_lines.insert(*uid, self.line);
                 self.finish("<!>", tr);
+            }
+            Stmt::Raw(t) => {
+                for l in t.lines() {
+                    self.emit_line(l);
+                }
             }
             Stmt::Assert(a, b) => self.emit_with(|p| {
                 let l = p.operand(a);
